@@ -75,6 +75,42 @@ theorem votes_perm_of_getD {d₁ d₂ : Votes} (h1 : (keys d₁).Nodup) (h2 : (k
   rw [this]
   exact hk.map _
 
+theorem mem_keys_incr (d : Votes) (c : Cand) (k : Rat) (x : Cand) : x ∈ keys (incr d c k) ↔ x ∈ keys d ∨ x = c := by
+  rw [keys_incr]
+  split
+  · rename_i hc
+    constructor
+    · exact fun h => Or.inl h
+    · rintro (h | rfl)
+      · exact h
+      · exact hc
+  · simp
+
+theorem copelandFold_keys (wins : List Pair) : ∀ d : Votes, (keys d).Nodup →
+    (keys (wins.foldl (fun d w => incr (incr d w.1 1) w.2 (-1)) d)).Nodup ∧
+      ∀ x, x ∈ keys (wins.foldl (fun d w => incr (incr d w.1 1) w.2 (-1)) d) ↔
+        x ∈ keys d ∨ ∃ w ∈ wins, x = w.1 ∨ x = w.2 := by
+  induction wins with
+  | nil => intro d hd; exact ⟨hd, by simp⟩
+  | cons w ws ih =>
+    intro d hd
+    rw [List.foldl_cons]
+    obtain ⟨h1, h2⟩ := ih _ (nodup_keys_incr (nodup_keys_incr hd w.1 1) w.2 (-1))
+    refine ⟨h1, fun x => ?_⟩
+    rw [h2, mem_keys_incr, mem_keys_incr]
+    simp only [List.mem_cons, exists_eq_or_imp, or_assoc]
+
+/-- `Copeland.scores(wins)`: the same items, whatever the order of the wins -/
+theorem copelandScoresRaw_perm {w₁ w₂ : List Pair} (h : w₁.Perm w₂) :
+    (copelandScoresRaw w₁).Perm (copelandScoresRaw w₂) := by
+  obtain ⟨n1, m1⟩ := copelandFold_keys w₁ [] (by simp [keys])
+  obtain ⟨n2, m2⟩ := copelandFold_keys w₂ [] (by simp [keys])
+  refine votes_perm_of_getD n1 n2 ?_ (copelandScoresRaw_getD_perm h)
+  apply (List.perm_ext_iff_of_nodup n1 n2).mpr
+  intro x
+  rw [m1, m2]
+  simp only [h.mem_iff]
+
 /-- the seeded Copeland score table: the same items -/
 theorem seededScores_perm {v₁ v₂ : Pairwise} (h : v₁.Perm v₂) {r₁ r₂ : Votes} (hr : ∀ c, getD r₁ c 0 = getD r₂ c 0) :
     (seededScores v₁ r₁).Perm (seededScores v₂ r₂) := by
@@ -383,6 +419,20 @@ theorem smithSet_perm {v₁ v₂ : Pairwise} (h : v₁.Perm v₂) (hn : (v₁.ma
 /-- **SchwartzSet: ballot-order independence** -/
 theorem schwartzSet_perm {v₁ v₂ : Pairwise} (h : v₁.Perm v₂) (hn : (v₁.map (·.1)).Nodup) :
     (schwartzSet v₁).Perm (schwartzSet v₂) := smithSchwartz_perm h hn false
+
+/-! ### results that are equal are equivalent -/
+
+theorem slotsEquiv_cands (l : List Cand) : SlotsEquiv (l.map Slot.cand) (l.map Slot.cand) :=
+  ⟨l, l, [], [], 0, by simp, by simp, List.Perm.refl _, List.Perm.refl _⟩
+
+theorem exceptEquiv_of_eq_cands {a b : Except Err (List Slot)} (h : a = b)
+    (hs : ∀ r, a = .ok r → ∃ l : List Cand, r = l.map Slot.cand) : ExceptEquiv SlotsEquiv a b := by
+  subst h
+  cases a with
+  | error e => exact rfl
+  | ok r =>
+    obtain ⟨l, rfl⟩ := hs r rfl
+    exact slotsEquiv_cands l
 
 example : ([((0, 1), (3 : Rat)), ((1, 0), 2), ((1, 2), 4), ((2, 1), 1)] : Pairwise).Perm
       [((1, 2), (4 : Rat)), ((0, 1), 3), ((2, 1), 1), ((1, 0), 2)] ∧
